@@ -20,6 +20,8 @@ for f in glob.glob("/tmp/seed/confirm_*.txt"):
     if not os.path.exists(mp):
         continue
     txt = open(f).read()
+    if "pytest_exit=" not in txt:
+        continue  # confirmation still running
     meta = json.load(open(mp))
     meta["confirmed"] = {
         "how": "tools/confirm_seed.sh in a scratch worktree of /repo HEAD: demo without the change, git apply, demo with the change, full repository test-suite with the change",
